@@ -583,6 +583,14 @@ def run(ctx, t0):
                 if a[2]:
                     acc.add(0x0A)
     rules = [r1, rule_sha256_cfg(facts, acc), r2, rule_reserved(facts), rule_trailing(facts)]
+    # a filter id is classified as read: the multi-byte decoder must not drop high bits (shared with C03.R2)
+    from rules import C03 as _c03
+    r6 = _c03.rule_multibyte(facts)
+    r6.rule = "C18.R6"
+    r6.title = "multi-byte integers (filter ids) are decoded with all their bits"
+    for f in r6.findings:
+        f.rule = "C18.R6"
+    rules.append(r6)
     expl = ("Static: accept-sets are read off the SwitchInt terminators of the id-mapping functions; reserved-bit "
             "and trailing-data tests are located by the provenance term of their condition and checked by "
             "dominance over every Ok source and by reachability of Ok from the failing edge; the SHA-256 clause "
